@@ -78,6 +78,9 @@ def opIntr (ws : List String) : String :=
   let bf : Vector UInt32 (nbytes / 4) := vecF (nbytes / 4) bb
   let mf : Vector UInt32 (nbytes / 4) := vecF (nbytes / 4) mb
   let okf (v : Vector UInt32 (nbytes / 4)) : String := "ok " ++ hexOrDash (bytesF v)
+  -- a scalar extraction of `g` bits at index `imm`, cut to the `w`-bit lane of the helper's view = lane `imm * g / w` of that view
+  let extr (g : Nat) : String :=
+    if w ≤ g && (imm * g) % w == 0 then "ok " ++ hexOrDash (natLE (w / 8) (extract 0 a (imm * g / w)).toNat) else "bad-op"
   match f with
   | "_mm_srli_si128" | "_mm256_srli_si256" => if imm % B == 0 then okv (bsrli L B 0 a imm) else "bad-op"
   | "_mm_slli_si128" => if imm % B == 0 then okv (bslli L B 0 a imm) else "bad-op"
@@ -93,6 +96,13 @@ def opIntr (ws : List String) : String :=
   | "_mm512_extracti32x8_epi32" | "_mm512_extractf32x8_ps" =>
       "ok " ++ hexOrDash (bytesW (extract_half (m := n / 2) 0 a imm))
   | "_mm_move_ss" => okv (move_ss (32 / w) 0 a b)
+  | "_mm_extract_epi16" | "_mm256_extract_epi16" => extr 16
+  | "_mm_cvtsi128_si32" | "_mm256_extract_epi32" => extr 32
+  | "_mm256_extract_epi8" => extr 8
+  | "_mm_store_ss" => if w == 32 then "ok " ++ hexOrDash (natLE 4 (extract 0 a 0).toNat) else "bad-op"
+  | "_mm_setzero_ps" | "_mm_setzero_si128" => okv (Vector.ofFn fun _ => 0)
+  | "_mm_set1_ps" | "_mm_set1_epi32" => if w == 32 then okv (Vector.ofFn fun _ => extract 0 a 0) else "bad-op"
+  | "_mm_castps_si128" | "_mm_castsi128_ps" => okv a
   | "_mm_max_epu8" | "_mm256_max_epu8" => if w == 8 then okv (max_epu a b) else "bad-op"
   | "_mm_max_epi8" | "_mm256_max_epi8" => if w == 8 then okv (max_epi a b) else "bad-op"
   | "_mm_max_epi16" | "_mm256_max_epi16" => if w == 16 then okv (max_epi a b) else "bad-op"
